@@ -1,5 +1,6 @@
 import Stackage.Driver.Hist
 import Stackage.Driver.Render
+import Stackage.Driver.Cond
 
 /-! Correspondence driver: case lines on stdin, `<id> M <model>` and `<id> S <spec>` lines on stdout. -/
 
@@ -9,6 +10,7 @@ def dispatch (stream payload : String) : String × String × String :=
   if ["hist", "histx", "capx", "nest", "pol", "xfer"].contains stream then runHist payload
   else if stream == "render" then runRender payload
   else if stream == "strunit" then runStrUnit payload
+  else if stream == "condhist" then runCondHist payload
   else ("NOSTREAM", "NOSTREAM", "")
 
 partial def loop (h : IO.FS.Stream) (out : IO.FS.Stream) : IO Unit := do
